@@ -247,6 +247,12 @@ func cliExit(r *Run) {
 		}
 	}
 
+	if par1Set && !longGap && t.Bool(1, 6, "foreign-writer") {
+		// the set as another PAR1 client would have written it (comment,
+		// entries listed but not saved in the volume set)
+		w.RewriteAsForeignPar1(r)
+		rw.Sync()
+	}
 	// failures that are not damage: a data file that cannot be read at all
 	// (a directory sits in its place), an index path that runs through a
 	// regular file - "every other failure exits with another non-zero status"
